@@ -5,4 +5,5 @@ functions it analysed and what they call (totality.py)."""
 def run_check(mod, ck, prog) -> None:
     mod.run(ck, prog)
     from .totality import totality
-    totality(ck, prog, getattr(mod, 'TOTAL_SCOPE', ()))
+    extra = getattr(mod, 'TOTAL_SCOPE', ())
+    totality(ck, prog, extra(prog) if callable(extra) else extra)
